@@ -130,7 +130,7 @@ harness(void)
                                 return;
                         one_call();
                 } while (s->avail_in > 0 || (s->avail_out == 0 && s->internal_state.state != ZSTATE_NEW_HDR &&
-                                             s->internal_state.state != ZSTATE_TMP_NEW_HDR));
+                                             s->internal_state.state != ZSTATE_TMP_NEW_HDR && s->internal_state.state != ZSTATE_END));
                 /* ZSTATE_TMP_NEW_HDR: the flush has been generated completely, only staged bytes are pending.  The
                  * flush flag must be dropped here: repeating the call with the flag still set until
                  * "avail_out > 0 or state == ZSTATE_NEW_HDR" (igzip_lib.h) never terminates for output chunks of 2, 3, 4
